@@ -27,6 +27,19 @@ def family(name, n):
         return "class O:\n    pass\no = O()\no.a = o\nv = o" + ".a" * n + "\nprint(v is o)\n"
     if name == "call-chain":
         return "def f():\n    return f\nv = f" + "()" * n + "\nprint(v is f)\n"
+    if name == "statements-after-break":
+        # a flat block in which many statements follow a conditional break / continue / return (one shared guard)
+        return "t = 0\nfor i in range(3):\n    if i == 2:\n        break\n" + "".join(f"    t += {k % 3}\n" for k in range(n)) + "print(t)\n"
+    if name == "statements-after-continue":
+        return "t = 0\nn = 0\nwhile n < 3:\n    n += 1\n    if n == 2:\n        continue\n" + "".join(f"    t += {k % 3}\n" for k in range(n)) + "print(t)\n"
+    if name == "statements-after-return":
+        return "def f(v):\n    t = 0\n    if v:\n        return -1\n" + "".join(f"    t += {k % 3}\n" for k in range(n)) + "    return t\nprint(f(0), f(1))\n"
+    if name == "lambda-chain-in-class":
+        return "g = 7\nclass K:\n    f = " + "lambda: " * n + "g\nv = K.f\nfor _ in range(" + str(n) + "):\n    v = v()\nprint(v)\n"
+    if name == "lambda-chain-in-function":
+        return "def mk():\n    g = 7\n    return " + "lambda: " * n + "g\nv = mk()\nfor _ in range(" + str(n) + "):\n    v = v()\nprint(v)\n"
+    if name == "genexp-chain-in-class":
+        return "g = [7]\nclass K:\n    f = " + "(" * n + "g" + " for _ in [0])" * n + "\nv = K.f\nfor _ in range(" + str(n) + "):\n    v = next(v)\nprint(v)\n"
     if name == "nested-if":
         return "".join("    " * i + "if True:\n" for i in range(n)) + "    " * n + "print('deep')\n"
     if name == "nested-for":
@@ -72,8 +85,9 @@ DEEP_CONTEXTS = {
 }
 
 FAMILIES = ["statements", "statements-in-function", "statements-in-loop", "elif-chain", "dispatch-return", "dispatch-continue", "binop-chain", "boolop-chain", "attribute-chain",
-            "call-chain", "nested-if", "nested-for", "list-display", "nested-parens-call"] + ["deep-expr-in:" + c for c in DEEP_CONTEXTS]
-DEEP = {"nested-if": 90, "nested-for": 18, "nested-parens-call": 150}   # CPython's own limits for the source are near these
+            "call-chain", "nested-if", "nested-for", "list-display", "nested-parens-call", "statements-after-break", "statements-after-continue",
+            "statements-after-return", "lambda-chain-in-class", "lambda-chain-in-function", "genexp-chain-in-class"] + ["deep-expr-in:" + c for c in DEEP_CONTEXTS]
+DEEP = {"nested-if": 90, "nested-for": 18, "nested-parens-call": 150, "genexp-chain-in-class": 150}   # CPython's own limits for the source are near these
 
 
 def run(src, mode):
@@ -118,9 +132,10 @@ def work(job):
 
 def known_shape(fam, n, cfg, verdict):
     """attribute a failing run to one of the listed known findings (by option, family and failure kind)"""
-    if cfg[1] == "chain_call" and fam in ("statements", "statements-in-function", "statements-in-loop") and "RecursionError" in verdict:
+    if cfg[1] == "chain_call" and fam in ("statements", "statements-in-function", "statements-in-loop", "statements-after-break", "statements-after-continue",
+                                        "statements-after-return") and "RecursionError" in verdict:
         return "KF-D51"     # the chain-call wrapper nests one call per consecutive statement of a block
-    if cfg[0] == "ast.unparse" and verdict == "fail:convert RecursionError" and fam in ("elif-chain", "dispatch-return", "dispatch-continue", "binop-chain", "boolop-chain", "attribute-chain", "call-chain") + tuple("deep-expr-in:" + c for c in DEEP_CONTEXTS):
+    if cfg[0] == "ast.unparse" and verdict == "fail:convert RecursionError" and fam in ("elif-chain", "dispatch-return", "dispatch-continue", "binop-chain", "boolop-chain", "attribute-chain", "call-chain", "lambda-chain-in-class", "lambda-chain-in-function", "genexp-chain-in-class") + tuple("deep-expr-in:" + c for c in DEEP_CONTEXTS):
         return "KF-D53"     # the stdlib unparser is recursive: output nested deeper than the recursion limit
     if cfg[2] == "short_circuit" and fam in ("elif-chain", "dispatch-return", "dispatch-continue") and ("MemoryError(compile)" in verdict or "RecursionError" in verdict):
         return "KF-D54"     # the short-circuit style adds three operator levels per elif: the parser's stack overflows
